@@ -465,13 +465,10 @@ class ReplaceChild:
         e.want(new, PA, p)
         e.adopt(old, PA)
         if op["del"]:
-            if pre.cells[old][RG]:
-                for d in pre.subtree(old):
-                    e.want(d, RG, False)
-            else:
-                # deleting an id that is not registered has no stated outcome
-                for d in pre.subtree(old):
-                    e.adopt(d, RG)
+            # replace with deletion discards the old subtree: none of it stays registered
+            for d in pre.subtree(old):
+                e.want(d, RG, False)
+            e.notes["old_unregistered"] = not pre.cells[old][RG]
         # replace does not merge namespaces; the statement on attach speaks of
         # add_child, so the new subtree's bindings are not judged here
         return e
